@@ -251,11 +251,94 @@ def _py3_class(mod, name):
     return name
 
 
+def _epipe_model(cx, p, w, ms):
+    """the Python CSV writer over a stream whose k-th write() fails with the broken-pipe error (k = 1, 2, never): write() returns False and
+    sets broken_pipe exactly when a stream write failed, True otherwise; finish() then leaves the stream alone, and flushes (or closes, if it
+    owns the stream) exactly once when the pipe is intact.  '' / problem / None (outside the abstract interpreter)"""
+    from .. import absexec as AX
+    init, wr, fin = ms.get('__init__'), ms.get('write'), ms.get('finish')
+    if init is None or wr is None or fin is None or len(init.args.args) < 6:
+        return None
+    try:
+        for fail_at in (1, 2, None):
+            for owns in (False, True):
+                selfv, stream = AX.Abs('Self'), AX.Abs('Stream')
+                calls = []
+
+                def on_call(ex, node, fname, recv, args):
+                    short = node.func.attr if isinstance(node.func, ast.Attribute) else fname
+                    if recv is stream and short == 'write':
+                        calls.append('write')
+                        if fail_at is not None and calls.count('write') == fail_at:
+                            raise AX.Raised(AX.Abs('broken_pipe_exception', errno=32), node)
+                        return None
+                    if recv is stream and short in ('flush', 'close'):
+                        calls.append(short)
+                        return None
+                    if fname in ('sys.stdout.close', 'sys.stderr.close'):
+                        return None
+                    return AX.NOT_HANDLED
+
+                def on_name(ex, node, name):
+                    if name == 'PY3':
+                        return True
+                    if name == 'broken_pipe_exception':
+                        return ('global', 'BrokenPipeError')
+                    if name in ('IOError', 'OSError', 'BrokenPipeError'):
+                        return ('global', name)
+                    if name == 'EPIPE':
+                        return 32
+                    if name in ('basestring', 'unicode'):
+                        return ('builtin', 'str')
+                    if name == 'polymorphic_xrange':
+                        return ('builtin', 'range')
+                    return AX.NOT_HANDLED
+
+                def on_attr(ex, node, obj, attr):
+                    if isinstance(obj, AX.Abs) and obj.kind == 'broken_pipe_exception' and attr == 'errno':
+                        return 32
+                    return AX.NOT_HANDLED
+                ex = AX.Explorer(p, 'rbql_csv', on_call=on_call, on_name=on_name, on_attr=on_attr, max_choices=1)
+                ex.cls = 'CSVWriter'
+                ex._script, ex._pos, ex.steps, ex.depth = [], 0, 0, 0
+                ex.run = AX.Run()
+                ex.call_fd(init, [selfv, stream, owns, None, ',', 'quoted'])
+                got = ex.call_fd(wr, [selfv, ['a', 'b']])
+                failed = fail_at is not None and calls.count('write') >= fail_at
+                flag = bool(ex.run.state.get((selfv.uid, 'broken_pipe'), False))
+                what = 'a record written to a stream whose write() number {} fails with the broken-pipe error'.format(fail_at) if fail_at else 'a record written to an intact stream'
+                if failed and (got is not False or not flag):
+                    return '{}: write() returns {!r} and broken_pipe is {} (must be False and set): the engine keeps writing into a closed pipe, or finish() touches the dead stream'.format(what, got, flag)
+                if not failed and (got is not True or flag):
+                    return '{}: write() returns {!r} and broken_pipe is {} (must be True and clear)'.format(what, got, flag)
+                before = len(calls)
+                ex.steps, ex.depth = 0, 0
+                ex.call_fd(fin, [selfv])
+                after = calls[before:]
+                if failed and after:
+                    return '{}: finish() still calls {} on the stream'.format(what, ', '.join(after))
+                if not failed and after != (['close'] if owns else ['flush']):
+                    return '{}: finish() performs {} on the stream (must be exactly one {})'.format(what, after or 'nothing', 'close' if owns else 'flush')
+    except (Undecided, AX.Cut, AX._NeedChoice, AX.Raised, KeyError, IndexError, TypeError, AttributeError, ValueError) as e_:
+        import os
+        if os.environ.get('RBQL_VERIF_DEBUG'):
+            print('broken-pipe model gave up:', type(e_).__name__, str(e_)[:200])
+        return None
+    return ''
+
+
 def rule_rs_epipe(cx, rep, port='py'):
     p = cx.py
     w = p.cls('rbql_csv', 'CSVWriter')
     ms = {m.name: m for m in w.body if isinstance(m, ast.FunctionDef)}
     wr = ms['write']
+    em = _epipe_model(cx, p, w, ms)
+    if em is not None:
+        for k_ in ('pipe handler coverage', 'pipe handler verdict', 'pipe flag', 'success verdict', 'finish after broken pipe', 'pipe flag init'):
+            rep.decide(em == '', k_, wr, 'a failing stream write makes write() return False with broken_pipe set and finish() leaves the stream alone; an intact stream is flushed / closed once (writer evaluated with the 1st / 2nd / no write failing, owning and not owning the stream)', em)
+        _rs_epipe_handlers(cx, rep, p, ms, model=em)
+        return
+    rep._fallback = 'the CSV writer is outside the abstract interpreter'
     tries = [t for t in walk_no_nested(wr) if isinstance(t, ast.Try)]
     swrites = [c for c in walk_no_nested(wr) if isinstance(c, ast.Call) and call_name(c) == 'self.stream.write']
     rep.require_count('stream.write sites', len(swrites), 2, wr)
@@ -299,6 +382,13 @@ def rule_rs_epipe(cx, rep, port='py'):
     init = ms['__init__']
     ini = [n for n in walk_no_nested(init) if isinstance(n, ast.Assign) and dotted(n.targets[0]) == 'self.broken_pipe']
     rep.decide(len(ini) == 1 and is_false(ini[0].value), 'pipe flag init', ini[0] if ini else init, 'broken_pipe starts False', 'broken_pipe is not initialised to False')
+    rep._fallback = None
+    _rs_epipe_handlers(cx, rep, p, ms)
+
+
+def _rs_epipe_handlers(cx, rep, p, ms, model=None):
+    w = p.cls('rbql_csv', 'CSVWriter')
+    fin = ms['finish']
     # every handler of the broken-pipe class swallows *every* BrokenPipeError: a re-raise is allowed only under a test that is false
     # when the caught class is BrokenPipeError itself (the Python 2 fallback `broken_pipe_exception == IOError`)
     mod = p.modules['rbql_csv']
@@ -358,6 +448,9 @@ def rule_rs_epipe(cx, rep, port='py'):
             else:
                 rep.holds('CSVWriter.{} broken-pipe handler re-raise'.format(mname), h, 'every BrokenPipeError is swallowed ({} re-raise(s) are Python 2 only)'.format(len(raises)))
     rep.require_count('broken-pipe handlers', n_h, 2, w)
+    if model is not None:
+        rep.decide(model == '', 'finish close/flush', fin, 'close iff the writer owns the stream, otherwise flush (writer evaluated owning and not owning the stream)', model)
+        return
     # finish(): flush errors from a dead pipe are swallowed, everything else propagates; closing iff close_stream_on_finish
     gf = cfgmod.CFG(fin)
     tn = [n for n in gf.nodes if n.kind == 'test' and dotted(n.ast) == 'self.close_stream_on_finish']
